@@ -65,8 +65,10 @@ Definition wlits_ok (wl : list (str * outcome wt)) : bool :=
                      end) wl.
 
 (* ---- the documented semantics: hosts are case-insensitive in ALL three commands.
-        Expressed without touching the model: lower-case the host part of the source of every
-        del / weight command, then run the same table operations. ---- *)
+        Expressed independently of how the model folds the host: lower-case the host part of the
+        source of every del / weight command in the parsed script, then run the table operations.
+        (Until /repo commit b80fb7f the code did not fold in del / weight: finding F-C05-1, region 1,
+        now fixed; the region is gone, a regression is a plain violation.) ---- *)
 Definition fold_src (src : str) : str :=
   match src with
   | [] => []
@@ -83,12 +85,6 @@ Definition norm_def (d : def) : def :=
   | _ => {| d_cmd := d_cmd d; d_svc := d_svc d; d_src := fold_src (d_src d); d_dst := d_dst d;
             d_w := d_w d; d_tags := d_tags d; d_opts := d_opts d |}
   end.
-Definition upper_host_def (d : def) : bool :=
-  match d_cmd d with
-  | CmdAdd => false
-  | _ => negb (beq (fold_src (d_src d)) (d_src d))
-  end.
-
 (* ---- structural invariants decided on the implementation's own table ---- *)
 Definition tobs_w (o : tobs) : wt := match o with T _ _ w _ _ _ => w end.
 Definition tobs_live (o : tobs) : bool := match o with T _ _ _ _ _ l => l end.
@@ -194,10 +190,7 @@ Definition check_case (c : case) : N :=
                       end in
       let spec := out_eqb tbl_eqb impl spec_tbl
                   && match impl with Ok t => shape_ok t | Err _ => true | Panic => false end in
-      let region := match defs with
-                    | Ok ds => if existsb upper_host_def ds then Some 1 else None
-                    | _ => None
-                    end in
+      let region : option N := None in
       let nontriv := match defs with Ok ds => interesting canon gl [] ds | _ => false end in
       verdict same spec region nontriv
   | CRound urls bad tbl itext irt =>
